@@ -666,6 +666,19 @@ def gen_c20_extra(ctx, thorough):
                     steps.append(data(2, 5, es=True))
                 steps += [resp(3, es=True)] + ([] if position == 'after' else [resp(1, es=True)])   # the others must still succeed
                 out.append({'tag': 'resp-list', 'cfg': {}, 'steps': steps, 'abs': [fields, ok]})
+    # a well-formed final response stays well-formed behind any number of informational ones
+    for interim in ([100], [103], [103, 103]):
+        for tail in ('es-on-headers', 'data'):
+            steps = [call(1), resp(1, es=True), call(2)]
+            for stc in interim:
+                steps.append(resp(2, status=stc, fields=[["link", "</s.css>; rel=preload"]] if stc == 103 else [], es=False))
+            steps.append(resp(2, status=200, fields=[["x-a", "b"]], es=tail == 'es-on-headers'))
+            if tail != 'es-on-headers':
+                steps.append(data(2, 7, es=tail == 'data'))
+            if tail == 'trailers':
+                steps.append({"op": "resp", "req": 2, "rawfields": True, "fields": [["x-trailer", "t"]], "es": True, "pad": -1})
+            steps += [call(3), resp(3, es=True)]
+            out.append({'tag': 'interim-wellformed', 'cfg': {}, 'steps': steps})
     return out
 
 
